@@ -59,6 +59,14 @@ Definition call_time (name:list N) (ps:list value) : bres :=
   let with_dt (v:value) (k : Z -> Z -> Z -> Z -> bres) : bres :=    (* y m d time-of-day-ms *)
     match to_ms v with inr e => BErr e | inl ms => let days := ms / MSD in let tod := ms mod MSD in let '(y,m,d) := civil_from_days days in k y m d tod end in
   let one (k : Z -> Z -> Z -> Z -> bres) := match ps with [v] => with_dt v k | _ => cnt 1%N end in
+  (* string_to_*: the format parameter is looked at first (default_string), then the text; a format other than the default one is left to the oracles *)
+  let str_to (deflt:list N) (k : list N -> bres) : bres :=
+    match (match ps with _ :: x :: _ => (match x with VStr f => inl (Some f) | _ => inr tt end) | _ => inl None end) with
+    | inr _ => BErr WrongParameterType
+    | inl fo => match ps with
+                | VStr s :: _ => (match fo with None => k s | Some f => if leqb f deflt then k s else BUnmodelled end)
+                | _ :: _ => BErr WrongParameterType
+                | [] => cnt 1%N end end in
   if is [121;101;97;114] then one (fun y _ _ _ => num y)
   else if is [109;111;110;116;104] then one (fun _ m _ _ => num m)
   else if is [100;97;121] then one (fun _ _ d _ => num d)
@@ -109,22 +117,16 @@ Definition call_time (name:list N) (ps:list value) : bres :=
           else if leqb f fmt_dt then BOk (VStr (show_date y m d ++ [32%N] ++ show_time h mi s)) else BUnmodelled end
     | [_; _] => BErr WrongParameterType | _ => cnt 2%N end
   else if is [115;116;114;105;110;103;95;116;111;95;100;97;116;101] then
-    match ps with
-    | [VStr s] => match parse_date s with Some (y,m,d) => if valid_date y m d then BOk (of_ms (days_from_civil y m d * MSD)) else BErr CustomError | None => BUnmodelled end
-    | [] => cnt 1%N | _ => BUnmodelled end
+    str_to fmt_date (fun s => match parse_date s with Some (y,m,d) => if valid_date y m d then BOk (of_ms (days_from_civil y m d * MSD)) else BErr CustomError | None => BUnmodelled end)
   else if is [115;116;114;105;110;103;95;116;111;95;116;105;109;101] then
-    match ps with
-    | [VStr s] => match parse_time s with Some (h,mi,ss) => if (h <? 24) && (mi <? 60) && (ss <? 60) then BOk (of_ms (((h * 60 + mi) * 60 + ss) * 1000)) else BUnmodelled | None => BUnmodelled end
-    | [] => cnt 1%N | _ => BUnmodelled end
+    str_to fmt_time (fun s => match parse_time s with Some (h,mi,ss) => if (h <? 24) && (mi <? 60) && (ss <? 60) then BOk (of_ms (((h * 60 + mi) * 60 + ss) * 1000)) else BUnmodelled | None => BUnmodelled end)
   else if is [115;116;114;105;110;103;95;116;111;95;100;97;116;101;116;105;109;101] then
-    match ps with
-    | [VStr s] =>
+    str_to fmt_dt (fun s =>
         if Nat.eqb (length s) 19 && (nth 10 s 0%N =? 32)%N then
           match parse_date (firstn 10 s), parse_time (skipn 11 s) with
           | Some (y,m,d), Some (h,mi,ss) =>
               if negb (valid_date y m d) then BErr CustomError
               else if (h <? 24) && (mi <? 60) && (ss <? 60) then BOk (of_ms (days_from_civil y m d * MSD + ((h * 60 + mi) * 60 + ss) * 1000)) else BUnmodelled
           | _, _ => BUnmodelled end
-        else BUnmodelled
-    | [] => cnt 1%N | _ => BUnmodelled end
+        else BUnmodelled)
   else BUnmodelled.
